@@ -53,6 +53,7 @@ def request(m) -> bytes:
 class World:
     def __init__(self):
         self._old = (R.get_context, R._spawn_subprocess)
+        self._old_uuid = R.uuid
         R.get_context = lambda: types.SimpleNamespace(socket=lambda kind: Sock())
         R._spawn_subprocess = lambda spec, addr, job_id: None
         self.poller = Poller()
@@ -62,6 +63,7 @@ class World:
 
     def close(self):
         R.get_context, R._spawn_subprocess = self._old
+        R.uuid = self._old_uuid
 
     def jid(self, slot: int) -> str:
         return self.ids[slot - 1] if slot <= len(self.ids) else "unknown-" + str(slot)
@@ -75,6 +77,11 @@ class World:
     def apply(self, last: tuple):
         act = last[0]
         if act == "Submit":
+            # the identifier source repeats the most recently issued identifier last[2] times before it yields a new one
+            clash = last[2] if len(last) > 2 else 0
+            script = [uuid.UUID(self.ids[-1])] * clash if self.ids else []
+            real_uuid4 = uuid.uuid4
+            R.uuid = types.SimpleNamespace(uuid4=lambda: script.pop(0) if script else real_uuid4())
             spec = api.JobSpec(benchmark_name="x", envvars={}, job_instance=None, workers_per_host=1, hosts=1, use_slurm=False)
             rd = self.fe_call(api.SubmitJobRequest(job=spec))
             if rd["error"] is not None or rd["job_id"] in self.ids:
